@@ -1345,3 +1345,239 @@ Proof.
   apply redirect_partial; try assumption.
   rewrite resolve_mono; apply topo_no_timeout; exact Ht.
 Qed.
+
+(* =========================================================================================== *)
+(* The agreement guards follow from structural conditions on the graph                          *)
+
+Definition no_dotted (g : graph) : bool :=
+  forallb (fun kv => forallb (fun b => match b with Import _ _ true => false | _ => true end) (body (snd kv))) g.
+
+(* every `from m import x` of every module finds x *)
+Definition froms_found (f : nat) (g : graph) : bool :=
+  forallb (fun kv => forallb (fun b => match b with
+                                       | From m' x _ => is_found (resolve f g m' x)
+                                       | _ => true
+                                       end) (body (snd kv))) g.
+
+Lemma resolve_det : forall a b g m n,
+  resolve a g m n <> Timeout -> resolve b g m n <> Timeout -> resolve a g m n = resolve b g m n.
+Proof.
+  intros a b g m n Ha Hb. destruct (Nat.le_ge_cases a b) as [H|H].
+  - replace b with ((b - a) + a) by lia. symmetry. apply resolve_mono_plus. exact Ha.
+  - replace a with ((a - b) + b) by lia. apply resolve_mono_plus. exact Hb.
+Qed.
+
+Lemma existsb_rev' : forall X (p : X -> bool) l, existsb p (rev l) = existsb p l.
+Proof.
+  intros X p l. induction l as [|x l IH]; [reflexivity|].
+  cbn [rev existsb]. rewrite existsb_app, IH. cbn [existsb]. rewrite orb_false_r. apply orb_comm.
+Qed.
+
+(* one module body: Python finds n iff some statement matches for the tool *)
+Lemma scan_found_existsb : forall f g c n bs,
+  (forall m' a, ~ In (Import m' a true) bs) ->
+  (forall m' x a, In (From m' x a) bs -> is_found (resolve f g m' x) = true) ->
+  (forall m', In (Star m') bs ->
+              resolve f g m' n <> Timeout /\ star_ok g m' n && t_has f g m' n = py_has f g m' n) ->
+  is_found (scan (resolve f g) g c n bs) = existsb (t_match g (t_has f g) n) bs.
+Proof.
+  intros f g c n. induction bs as [|b bs IH]; intros Hd Hf Hs; [reflexivity|].
+  assert (IH' : is_found (scan (resolve f g) g c n bs) = existsb (t_match g (t_has f g) n) bs).
+  { apply IH.
+    - intros m' a H. apply (Hd m' a). right. exact H.
+    - intros m' x a H. apply (Hf m' x a). right. exact H.
+    - intros m' H. apply Hs. right. exact H. }
+  cbn [scan existsb]. destruct b as [x|x|m' x a|m'|m' a d]; cbn [t_match].
+  - destruct (x =? n); [reflexivity|exact IH'].
+  - destruct (x =? n); [reflexivity|exact IH'].
+  - destruct (a =? n); [|exact IH']. cbn [orb]. apply (Hf m' x a). left. reflexivity.
+  - destruct (Hs m' (or_introl eq_refl)) as [Hnt Hag]. rewrite Hag. unfold py_has.
+    destruct (find_mod g m') as [mi'|]; [|exact IH'].
+    destruct (exported mi' n); cbn [andb]; [|exact IH'].
+    destruct (resolve f g m' n) as [t| |]; cbn [is_found orb]; [reflexivity|exact IH'|exfalso; apply Hnt; reflexivity].
+  - destruct d; [exfalso; apply (Hd m' a); left; reflexivity|]. cbn [negb andb].
+    destruct (a =? n); [reflexivity|exact IH'].
+Qed.
+
+Lemma exported_split : forall g m mi n, find_mod g m = Some mi ->
+  exported mi n = star_ok g m n && all_filter_ok mi n.
+Proof.
+  intros g m mi n Hf. unfold exported, star_ok, all_filter_ok. rewrite Hf.
+  destruct (has_all mi); [reflexivity|]. rewrite andb_true_r. reflexivity.
+Qed.
+
+(* one module: agreement at fuel S f from agreement of its import sources at fuel f *)
+Lemma module_agrees : forall f g m mi n,
+  find_mod g m = Some mi ->
+  (forall m' a, ~ In (Import m' a true) (body mi)) ->
+  (forall m' x a, In (From m' x a) (body mi) -> is_found (resolve f g m' x) = true) ->
+  (forall m', In (Star m') (body mi) ->
+              resolve f g m' n <> Timeout /\ star_ok g m' n && t_has f g m' n = py_has f g m' n) ->
+  star_ok g m n && t_has (S f) g m n = py_has (S f) g m n.
+Proof.
+  intros f g m mi n Hfind Hd Hf Hs. unfold py_has. cbn [t_has resolve]. rewrite Hfind.
+  rewrite (exported_split g m mi n Hfind). rewrite <- andb_assoc. f_equal. f_equal.
+  rewrite (scan_found_existsb f g m n (rev (body mi))).
+  - rewrite existsb_rev'. reflexivity.
+  - intros m' a H. apply in_rev in H. exact (Hd m' a H).
+  - intros m' x a H. apply in_rev in H. exact (Hf m' x a H).
+  - intros m' H. apply in_rev in H. exact (Hs m' H).
+Qed.
+
+Definition agree_inv (g0 : graph) (seen : list modname) (f : nat) : Prop :=
+  forall m, mem m seen = true ->
+    (forall n, resolve f g0 m n <> Timeout) /\
+    (forall n, star_ok g0 m n && t_has f g0 m n = py_has f g0 m n) /\
+    (forall mi b s, find_mod g0 m = Some mi -> In b (body mi) -> import_source b = Some s -> mem s seen = true).
+
+Lemma froms_found_any : forall g F, froms_found F g = true ->
+  forall m mi m' x a f, find_mod g m = Some mi -> In (From m' x a) (body mi) ->
+  resolve F g m' x <> Timeout -> resolve f g m' x <> Timeout -> is_found (resolve f g m' x) = true.
+Proof.
+  intros g F HF m mi m' x a f Hfind Hin HntF Hntf. unfold froms_found in HF. rewrite forallb_forall in HF.
+  specialize (HF _ (find_mod_In _ _ _ Hfind)). cbn [snd] in HF. rewrite forallb_forall in HF.
+  specialize (HF _ Hin). cbn in HF. rewrite (resolve_det f F g m' x Hntf HntF). exact HF.
+Qed.
+
+Lemma no_dotted_body : forall g m mi, no_dotted g = true -> find_mod g m = Some mi ->
+  forall m' a, ~ In (Import m' a true) (body mi).
+Proof.
+  intros g m mi H Hfind m' a Hin. unfold no_dotted in H. rewrite forallb_forall in H.
+  specialize (H _ (find_mod_In _ _ _ Hfind)). cbn [snd] in H. rewrite forallb_forall in H.
+  specialize (H _ Hin). discriminate.
+Qed.
+
+Lemma agree_step : forall g0 F seen f m mi,
+  no_dotted g0 = true -> froms_found F g0 = true ->
+  (forall m' x, resolve F g0 m' x <> Timeout) ->
+  agree_inv g0 seen f ->
+  find_mod g0 m = Some mi ->
+  (forall b s, In b (body mi) -> import_source b = Some s -> mem s seen = true) ->
+  (forall n, resolve (S f) g0 m n <> Timeout) /\
+  (forall n, star_ok g0 m n && t_has (S f) g0 m n = py_has (S f) g0 m n).
+Proof.
+  intros g0 F seen f m mi Hnd HF HFnt Hinv Hfind Hsrc.
+  split.
+  - intros n. cbn [resolve]. rewrite Hfind. apply scan_no_timeout.
+    intros b s Hb Hs x. apply in_rev in Hb. destruct (Hinv s (Hsrc b s Hb Hs)) as [H1 _]. apply H1.
+  - intros n. apply (module_agrees f g0 m mi n Hfind).
+    + exact (no_dotted_body g0 m mi Hnd Hfind).
+    + intros m' x a Hin.
+      apply (froms_found_any g0 F HF m mi m' x a f Hfind Hin (HFnt m' x)).
+      destruct (Hinv m' (Hsrc (From m' x a) m' Hin eq_refl)) as [H1 _]. apply H1.
+    + intros m' Hin. destruct (Hinv m' (Hsrc (Star m') m' Hin eq_refl)) as [H1 [H2 _]].
+      split; [apply H1|apply H2].
+Qed.
+
+Lemma agree_aux : forall g0 F, no_dotted g0 = true -> froms_found F g0 = true ->
+  (forall m' x, resolve F g0 m' x <> Timeout) ->
+  forall suffix seen f,
+  (forall k mi, In (k, mi) suffix -> find_mod g0 k = Some mi) ->
+  topo_from seen suffix = true ->
+  agree_inv g0 seen f ->
+  forall m, (mem m seen = true \/ In m (map fst suffix)) ->
+  forall n, star_ok g0 m n && t_has (length suffix + f) g0 m n = py_has (length suffix + f) g0 m n.
+Proof.
+  intros g0 F Hnd HF HFnt. induction suffix as [|[k mi] suffix IH]; intros seen f Hfind Ht Hinv m Hm n.
+  - cbn [length plus]. destruct Hm as [Hm|[]]. destruct (Hinv m Hm) as [_ [H2 _]]. apply H2.
+  - cbn [topo_from] in Ht. apply andb_true_iff in Ht. destruct Ht as [Ht Htl].
+    apply andb_true_iff in Ht. destruct Ht as [_ Hsrc]. rewrite forallb_forall in Hsrc.
+    assert (Hksrc : forall b s, In b (body mi) -> import_source b = Some s -> mem s seen = true).
+    { intros b s Hb Hs. specialize (Hsrc b Hb). rewrite Hs in Hsrc. exact Hsrc. }
+    assert (Hinv' : agree_inv g0 (k :: seen) (S f)).
+    { intros m0 Hm0. unfold mem in Hm0. cbn [existsb] in Hm0. apply orb_true_iff in Hm0.
+      assert (Hup : forall s, mem s seen = true -> mem s (k :: seen) = true).
+      { intros s Hs. unfold mem. cbn [existsb]. fold (mem s seen). rewrite Hs. apply orb_true_r. }
+      destruct Hm0 as [Hm0|Hm0].
+      - apply Nat.eqb_eq in Hm0. subst m0.
+        destruct (agree_step g0 F seen f k mi Hnd HF HFnt Hinv (Hfind k mi (or_introl eq_refl)) Hksrc) as [A1 A2].
+        split; [exact A1|]. split; [exact A2|].
+        intros mi0 b s Hf0 Hb Hs. rewrite (Hfind k mi (or_introl eq_refl)) in Hf0. inversion Hf0. subst mi0.
+        apply Hup. exact (Hksrc b s Hb Hs).
+      - fold (mem m0 seen) in Hm0. destruct (Hinv m0 Hm0) as [H1 [H2 H3]].
+        destruct (find_mod g0 m0) as [mi0|] eqn:Ef0.
+        + destruct (agree_step g0 F seen f m0 mi0 Hnd HF HFnt Hinv Ef0 (fun b s => H3 mi0 b s eq_refl)) as [A1 A2].
+          split; [exact A1|]. split; [exact A2|].
+          intros mi1 b s Hf1 Hb Hs. apply Hup. exact (H3 mi1 b s Hf1 Hb Hs).
+        + split; [intros n0; cbn [resolve]; rewrite Ef0; discriminate|].
+          split; [|intros mi1 b s Hf1; discriminate].
+          intros n0. unfold star_ok, py_has. rewrite Ef0. reflexivity. }
+    replace (length ((k, mi) :: suffix) + f) with (length suffix + S f) by (cbn [length]; lia).
+    apply (IH (k :: seen) (S f)); [| exact Htl | exact Hinv' |].
+    + intros k0 mi0 Hin. apply Hfind. right. exact Hin.
+    + destruct Hm as [Hm|Hm].
+      * left. unfold mem. cbn [existsb]. fold (mem m seen). rewrite Hm. apply orb_true_r.
+      * cbn [map fst In] in Hm. destruct Hm as [Hm|Hm]; [|right; exact Hm].
+        subst. left. unfold mem. cbn [existsb]. rewrite Nat.eqb_refl. reflexivity.
+Qed.
+
+(* on an acyclic graph without un-aliased dotted imports whose from-imports all find their name, the
+   tool's "module m provides n" and Python's star-import semantics coincide for every module and name *)
+Theorem tool_agrees_with_python : forall g,
+  topo_ok g = true -> no_dotted g = true -> froms_found (S (length g)) g = true ->
+  forall m n, star_ok g m n && t_has (length g) g m n = py_has (length g) g m n.
+Proof.
+  intros g Ht Hnd HF m n. destruct (find_mod g m) as [mi|] eqn:Ef.
+  - replace (length g) with (length g + 0) by lia.
+    apply (agree_aux g (S (length g)) Hnd HF (topo_no_timeout g Ht) g [] 0).
+    + intros k mi0 Hin. apply (topo_from_find g [] Ht k mi0 Hin).
+    + exact Ht.
+    + intros m0 Hm0. discriminate.
+    + right. apply in_map_iff. exists (m, mi). split; [reflexivity|apply find_mod_In; exact Ef].
+  - unfold star_ok, py_has. rewrite Ef. reflexivity.
+Qed.
+
+Lemma stars_agree_structural : forall g bs used,
+  topo_ok g = true -> no_dotted g = true -> froms_found (S (length g)) g = true ->
+  stars_agree (length g) (length g) g bs used = true.
+Proof.
+  intros g bs used Ht Hnd HF. unfold stars_agree. apply forallb_forall. intros b _.
+  destruct b; try reflexivity. apply forallb_forall. intros n _.
+  rewrite (tool_agrees_with_python g Ht Hnd HF). apply eqb_reflx.
+Qed.
+
+Lemma redirect_agrees_structural : forall std g bs,
+  topo_ok g = true -> no_dotted g = true -> froms_found (S (length g)) g = true ->
+  redirect_agrees (length g) (length g) std g bs = true.
+Proof.
+  intros std g bs Ht Hnd HF. unfold redirect_agrees. apply forallb_forall. intros b _.
+  destruct b as [x|x|m x a|m|m a d]; try reflexivity.
+  destruct (redirectable std g m) as [mi|] eqn:Er; [|reflexivity].
+  destruct (redirectable_find std g m mi Er) as [Hfind _].
+  apply forallb_forall. intros b0 Hb0.
+  destruct b0 as [y|y|m' y a'|m'|m' a' d']; cbn [t_match py_match binds]; try apply eqb_reflx.
+  - rewrite (tool_agrees_with_python g Ht Hnd HF). apply eqb_reflx.
+  - destruct d'; [exfalso; exact (no_dotted_body g m mi Hnd Hfind m' a' Hb0)|].
+    cbn [negb andb]. apply eqb_reflx.
+Qed.
+
+(* T18.1 under purely structural guards *)
+Theorem star_expansion_structural : forall g c mi used n,
+  topo_ok g = true -> no_dotted g = true -> froms_found (S (length g)) g = true ->
+  find_mod g c = Some mi ->
+  client_leaf g c = true ->
+  In n used ->
+  resolve (S (length g)) (update_mod g c (set_body mi (fix_starred (length g) g (body mi) used))) c n =
+  resolve (S (length g)) g c n.
+Proof.
+  intros g c mi used n Ht Hnd HF Hf Hl Hn.
+  apply star_expansion_acyclic; try assumption. apply stars_agree_structural; assumption.
+Qed.
+
+Theorem redirect_structural : forall std g c mi n,
+  topo_ok g = true -> no_dotted g = true -> froms_found (S (length g)) g = true ->
+  find_mod g c = Some mi ->
+  client_leaf g c = true ->
+  has_star (body mi) = false ->
+  count_binders n (body mi) <= 1 ->
+  resolve (S (S (length g))) (update_mod g c (set_body mi (fix_reimported (length g) std g (body mi)))) c n =
+  resolve (S (S (length g))) g c n.
+Proof.
+  intros std g c mi n Ht Hnd HF Hf Hl Hns Hc.
+  apply redirect_acyclic; try assumption. apply redirect_agrees_structural; assumption.
+Qed.
+
+Example structural_example :
+  topo_ok ex_graph = true /\ no_dotted ex_graph = true /\ froms_found (S (length ex_graph)) ex_graph = true /\
+  topo_ok ex_graph2 = true /\ no_dotted ex_graph2 = true /\ froms_found (S (length ex_graph2)) ex_graph2 = true.
+Proof. vm_compute. repeat split; reflexivity. Qed.
